@@ -688,8 +688,10 @@ constexpr bool is_conversion_lossy(Quantity<U, R> q, TargetUnitSlot target_unit)
 // Check for any lossiness in conversion (new rep).
 template <typename TargetRep, typename U, typename R, typename TargetUnitSlot>
 constexpr bool is_conversion_lossy(Quantity<U, R> q, TargetUnitSlot target_unit) {
-    return will_conversion_truncate<TargetRep>(q, target_unit) ||
-           will_conversion_overflow<TargetRep>(q, target_unit);
+    // Check for overflow first: the truncation check performs the unit conversion in the common
+    // type, which is only well defined once we know that it does not overflow.
+    return will_conversion_overflow<TargetRep>(q, target_unit) ||
+           will_conversion_truncate<TargetRep>(q, target_unit);
 }
 
 ////////////////////////////////////////////////////////////////////////////////////////////////////
